@@ -20,6 +20,7 @@ RULE = ('bytes: every opcode cell (1-byte, 0F, 0F38, 0F3A maps) x all 256 ModRM 
 RULE += ' Round 6: the same bytes through a bytearray.'
 RULE += ' Round 7: numeric literals of 20 to 20000 digits, decimal and hexadecimal, as immediate and displacement in both syntaxes.'
 RULE += ' Round 8: strings with a size prefix given two to four times, on which the decoder may not consume more bytes than the reference decoder says the instruction has; every opcode cell decoded for the 16-bit code-segment configuration (attrib opmode/admode u16) under six prefix choices.'
+RULE += ' Round 9: twelve of the longest encodings behind runs of 1 to 9 prefix bytes (strings of up to 24 bytes), every long or selected input also handed over as plain bytes; a 2^32-byte virtual address space with the instruction ending at its top; two streams over one file object used alternately; a stream over a bytearray patched in place between two decodes.'
 ASSUMPTIONS = ['the documented rejection of asm/asm_att is ValueError (raised by their p_error handlers and by asm itself)',
                'hangs are bounded by a 64-read logical bound per decode; a 20 s wall watchdog per case is inconclusive, not a violation']
 
